@@ -374,3 +374,410 @@ Proof.
   intros t1 t2 H1 H2 E. pose proof (parse_print t1 H1) as P1. rewrite E, (parse_print t2 H2) in P1.
   now inversion P1.
 Qed.
+
+(* ------------------------------------------------------------ history independence *)
+
+Lemma find_fixed : forall c sc st, c_fixed c = true -> s_load sc <= c_limit0 c ->
+  find c sc st = Ok (tt, Some (c_reset c)).
+Proof.
+  intros c sc st Hf Hl. unfold find. rewrite Hf.
+  destruct st; [reflexivity|]. destruct (Z.leb_spec (s_load sc) (c_limit0 c)); [reflexivity|lia].
+Qed.
+
+(* with the fix, the first thing marshalStruct does (Find) puts the cache into a state that
+   does not depend on what was there: the whole walk is the same function of the value *)
+Lemma shown_struct_state_irrelevant : forall ffmt c sc, c_fixed c = true -> s_load sc <= c_limit0 c ->
+  forall fuel id d ps st1 st2,
+  shown_struct ffmt c sc fuel id d ps st1 = shown_struct ffmt c sc fuel id d ps st2.
+Proof.
+  intros ffmt c sc Hf Hl fuel id d ps st1 st2. destruct fuel as [|f]; [reflexivity|].
+  with_strategy opaque [find bind charge lookup collect_fields collect_elems] simpl.
+  unfold bind at 1. symmetry. unfold bind at 1.
+  rewrite !(find_fixed c sc _ Hf Hl). reflexivity.
+Qed.
+
+Theorem encode_state_irrelevant : forall ffmt c sc fuel id v st,
+  c_fixed c = true -> s_load sc <= c_limit0 c ->
+  fst (encode ffmt c sc fuel id v st) = fst (encode ffmt c sc fuel id v None).
+Proof.
+  intros ffmt c sc fuel id v st Hf Hl. unfold encode. destruct (as_struct v) as [d ps].
+  rewrite (shown_struct_state_irrelevant ffmt c sc Hf Hl fuel id d ps st None).
+  destruct (shown_struct ffmt c sc fuel id d ps None) as [[t st']|e|]; reflexivity.
+Qed.
+
+(* Encode after any history of Encodes (of any values) on the same encoder writes what a
+   fresh encoder writes *)
+Theorem encode_history_independent : forall ffmt c sc fuel hist id v,
+  c_fixed c = true -> s_load sc <= c_limit0 c ->
+  fst (encode ffmt c sc fuel id v (run_history ffmt c sc fuel hist None))
+  = fst (encode ffmt c sc fuel id v None).
+Proof. intros. now apply encode_state_irrelevant. Qed.
+
+(* the n-th Encode of the same value equals the first, for every n *)
+Corollary encode_nth_eq_first : forall ffmt c sc fuel id v n,
+  c_fixed c = true -> s_load sc <= c_limit0 c ->
+  fst (encode ffmt c sc fuel id v (encode_again ffmt c sc fuel id v n None))
+  = fst (encode ffmt c sc fuel id v None).
+Proof. intros. now apply encode_state_irrelevant. Qed.
+
+(* ---- before the fix of F10: a struct with one Void field; read sizes as measured on a real
+   schema (field list 56, name 2, Type 32, Value 24 bytes; 114 bytes per Encode).  The 64 MiB
+   budget of the cached schema message lasts for 588,673 Encodes; the next one fails. *)
+Definition ex_schema : schema :=
+  mkSchema [(1, NStruct 0 0 56 [mkField [120] 2 65535 (FSlot 0 TVoid 0 RNull 32 24 0)])] 100.
+Definition ex_value : rval := RStruct [] [].
+Definition no_floats (bits pat : Z) : list Z := [63].
+
+Example encode_first_ok :
+  fst (encode no_floats cfg_prefix ex_schema 5 1 ex_value None) = Ok [40; 120; 32; 61; 32; 118; 111; 105; 100; 41].
+Proof. vm_compute. reflexivity. Qed.
+
+Example encode_history_independent_refuted :
+  exists n, fst (encode no_floats cfg_prefix ex_schema 5 1 ex_value
+                   (encode_again no_floats cfg_prefix ex_schema 5 1 ex_value n None))
+            <> fst (encode no_floats cfg_prefix ex_schema 5 1 ex_value None).
+Proof. exists 588673%N. vm_compute. discriminate. Qed.
+
+(* the same example on the fixed cache: still fine after as many Encodes *)
+Example encode_fixed_example :
+  fst (encode no_floats cfg_fixed ex_schema 5 1 ex_value
+         (encode_again no_floats cfg_fixed ex_schema 5 1 ex_value 588673%N None))
+  = Ok [40; 120; 32; 61; 32; 118; 111; 105; 100; 41].
+Proof. vm_compute. reflexivity. Qed.
+
+(* ------------------------------------------------------------ what the walk shows is in the fragment *)
+
+Fixpoint ty_ff (t : ty) : Prop :=
+  match t with TFloat _ => False | TList _ e => ty_ff e | _ => True end.
+
+Fixpoint rval_ok (v : rval) : Prop :=
+  match v with
+  | RStruct _ ps => (fix go (l : list rval) : Prop := match l with [] => True | p :: r => rval_ok p /\ go r end) ps
+  | RPtrs ps => (fix go (l : list rval) : Prop := match l with [] => True | p :: r => rval_ok p /\ go r end) ps
+  | RPrim w xs => w = 8 -> bytes_ok xs
+  | _ => True
+  end.
+
+Lemma rval_ok_go : forall ps,
+  (fix go (l : list rval) : Prop := match l with [] => True | p :: r => rval_ok p /\ go r end) ps <-> Forall rval_ok ps.
+Proof.
+  induction ps as [|p ps IH].
+  - split; intros _; [constructor|exact I].
+  - split; intros H.
+    + destruct H as [Hp Hr]. constructor; [assumption|now apply IH].
+    + inversion H; subst. split; [assumption|now apply IH].
+Qed.
+
+Definition field_ok (fd : field) : Prop :=
+  name_ok (f_name fd) /\
+  match f_kind fd with FSlot _ t _ dptr _ _ _ => ty_ff t /\ rval_ok dptr | _ => True end.
+Definition enumerant_ok (p : list Z * Z) : Prop := ident_ok (fst p) /\ ident_value (fst p) = TvIdent (fst p).
+Definition node_ok (n : node) : Prop :=
+  match n with
+  | NStruct _ _ _ fields => Forall field_ok fields
+  | NEnum _ names => Forall enumerant_ok names
+  | NOther => True
+  end.
+(* a float-free schema whose names are identifiers (enumerants not true/false/void) *)
+Definition schema_ok (sc : schema) : Prop := Forall (fun p => node_ok (snd p)) (s_nodes sc).
+
+Lemma lookup_ok : forall ns id n, Forall (fun p => node_ok (snd p)) ns -> lookup ns id = Some n -> node_ok n.
+Proof.
+  induction ns as [|[k m] ns IH]; intros id n H E; simpl in E; [discriminate|].
+  inversion H; subst. destruct (k =? id); [inversion E; subst; assumption|]. eapply IH; eassumption.
+Qed.
+
+Lemma bind_ok : forall {A B} (m : M A) (k : A -> M B) st r,
+  bind m k st = Ok r -> exists a st1, m st = Ok (a, st1) /\ k a st1 = Ok r.
+Proof.
+  intros A B m k st r H. unfold bind in H. destruct (m st) as [[a st1]|e|]; try discriminate.
+  exists a, st1. split; [reflexivity|assumption].
+Qed.
+Lemma ret_ok : forall {A} (a b : A) st st', ret a st = Ok (b, st') -> a = b.
+Proof. intros A a b st st' H. unfold ret in H. now inversion H. Qed.
+Lemma lift_ok : forall {A} (r : res A) a st st', lift r st = Ok (a, st') -> r = Ok a.
+Proof. intros A r a st st' H. unfold lift in H. destruct r; try discriminate. now inversion H. Qed.
+
+Lemma wf_tvals_of : forall l, Forall wf_tval l -> wf_tvals (tvals_of l).
+Proof. induction 1; simpl; auto. Qed.
+
+Lemma collect_elems_wf : forall {A} (step : A -> M tval) (P : A -> Prop) l,
+  (forall x st v st', P x -> step x st = Ok (v, st') -> wf_tval v) -> Forall P l ->
+  forall st vs st', collect_elems step l st = Ok (vs, st') -> wf_tvals vs.
+Proof.
+  intros A step P l Hs. induction 1 as [|x l Hx _ IH]; intros st vs st' H; simpl in H.
+  - apply ret_ok in H. subst. exact I.
+  - apply bind_ok in H. destruct H as (v & s1 & H1 & H).
+    apply bind_ok in H. destruct H as (vs' & s2 & H2 & H). apply ret_ok in H. subst.
+    split; [eapply Hs; eassumption|eapply IH; eassumption].
+Qed.
+
+Lemma collect_fields_wf : forall (step : field -> M (option tval)) fields,
+  (forall fd st v st', field_ok fd -> step fd st = Ok (Some v, st') -> wf_tval v) -> Forall field_ok fields ->
+  forall st fs st', collect_fields step fields st = Ok (fs, st') -> wf_tfields fs.
+Proof.
+  intros step fields Hs. induction 1 as [|fd l Hx _ IH]; intros st fs st' H; simpl in H.
+  - apply ret_ok in H. subst. exact I.
+  - apply bind_ok in H. destruct H as (o & s1 & H1 & H).
+    apply bind_ok in H. destruct H as (fs' & s2 & H2 & H). apply ret_ok in H. subst.
+    destruct o as [v|].
+    + split; [apply Hx|]. split; [eapply Hs; eassumption|eapply IH; eassumption].
+    + eapply IH; eassumption.
+Qed.
+
+Lemma removelast_ok : forall l, bytes_ok l -> bytes_ok (removelast l).
+Proof.
+  induction 1 as [|x l Hx Hl IH]; simpl; [constructor|]. destruct l; [constructor|]. constructor; assumption.
+Qed.
+
+Lemma data_bytes_ok : forall p, rval_ok p -> bytes_ok (data_bytes p).
+Proof.
+  intros [| d0 pp0 | w xs | ps0 |] H; simpl; try constructor.
+  destruct (Z.eqb_spec w 8); [now apply H|constructor].
+Qed.
+Lemma text_bytes_ok : forall p, rval_ok p -> bytes_ok (text_bytes p).
+Proof.
+  intros [| d0 pp0 | w xs | ps0 |] H; simpl; try constructor.
+  destruct (Z.eqb_spec w 8); [|constructor]. destruct (last xs 1 =? 0); [|constructor].
+  apply removelast_ok. now apply H.
+Qed.
+
+Lemma ptr_at_ok : forall ptrs off, Forall rval_ok ptrs -> rval_ok (ptr_at ptrs off).
+Proof.
+  intros ptrs off H. unfold ptr_at. generalize (Z.to_nat (off mod 65536)) as n.
+  induction H as [|p l Hp _ IH]; intros [|n]; simpl; auto.
+Qed.
+
+Lemma as_struct_ok : forall p d ps, rval_ok p -> as_struct p = (d, ps) -> Forall rval_ok ps.
+Proof.
+  intros [| d0 ps0 | w0 xs0 | ps0 |] d ps H E; simpl in E; inversion E; subst; try constructor.
+  now apply rval_ok_go.
+Qed.
+
+Lemma ptr_elems_ok : forall l ps, rval_ok l -> ptr_elems l = Ok ps -> Forall rval_ok ps.
+Proof.
+  intros [| d0 pp0 | w xs | ps0 |] ps H E; simpl in E; try (inversion E; subst; constructor).
+  - destruct (length xs =? 0)%nat; inversion E; subst; constructor.
+  - inversion E; subst. now apply rval_ok_go.
+Qed.
+
+Lemma shown_enum_wf : forall c sc id v st t st', schema_ok sc ->
+  shown_enum c sc id v st = Ok (t, st') -> wf_tval t.
+Proof.
+  intros c sc id v st t st' Hsc H. unfold shown_enum in H.
+  apply bind_ok in H. destruct H as (u & s1 & _ & H).
+  destruct (lookup (s_nodes sc) id) as [[| ecost names |]|] eqn:El; try discriminate.
+  pose proof (lookup_ok _ _ _ Hsc El) as Hn. simpl in Hn.
+  apply bind_ok in H. destruct H as (u2 & s2 & _ & H).
+  destruct (Z.of_nat (length names) <=? v).
+  - apply ret_ok in H. subst. exact I.
+  - destruct (nth_error names (Z.to_nat v)) as [[name nc]|] eqn:En; [|discriminate].
+    apply bind_ok in H. destruct H as (u3 & s3 & _ & H). apply ret_ok in H. subst.
+    apply nth_error_In in En. rewrite Forall_forall in Hn. exact (Hn _ En).
+Qed.
+
+Lemma ident_null_ok : wf_tval (TvIdent ident_null).
+Proof.
+  split; [|reflexivity]. split; [reflexivity|]. eexists; eexists; split; reflexivity.
+Qed.
+
+Lemma Forall_map_wf : forall {A} (f : A -> tval) (P : A -> Prop) l,
+  (forall x, P x -> wf_tval (f x)) -> Forall P l -> Forall wf_tval (map f l).
+Proof. intros A f P l H. induction 1; simpl; constructor; auto. Qed.
+
+Lemma Forall_True : forall {A} (l : list A), Forall (fun _ => True) l.
+Proof. induction l; constructor; auto. Qed.
+
+Ltac step_sh_in H :=
+  with_strategy opaque [find bind charge lookup collect_fields collect_elems ret fail lift shown_enum
+                        prim_elems ptr_elems list_len get_le get_bit ptr_at is_null as_struct
+                        data_bytes text_bytes sint tvals_of Z.lxor Z.eqb Z.ltb Z.leb] simpl in H.
+
+Lemma shown_wf : forall ffmt c sc, schema_ok sc -> forall fuel,
+  (forall id d ps st t st', Forall rval_ok ps ->
+     shown_struct ffmt c sc fuel id d ps st = Ok (t, st') -> wf_tval t) /\
+  (forall e l st t st', ty_ff e -> rval_ok l ->
+     shown_list ffmt c sc fuel e l st = Ok (t, st') -> wf_tval t).
+Proof.
+  intros ffmt c sc Hsc. induction fuel as [|f [IHs IHl]].
+  { split; intros; discriminate. }
+  split.
+  - (* marshalStruct *)
+    intros id d ps st t st' Hps H. step_sh_in H.
+    apply bind_ok in H. destruct H as (u & s1 & _ & H).
+    destruct (lookup (s_nodes sc) id) as [[dcount doff fcost fields| |]|] eqn:El; try discriminate.
+    pose proof (lookup_ok _ _ _ Hsc El) as Hn. simpl in Hn.
+    apply bind_ok in H. destruct H as (u2 & s2 & _ & H).
+    apply bind_ok in H. destruct H as (fs & s3 & Hc & H). apply ret_ok in H. subst t.
+    cbn [wf_tval]. eapply collect_fields_wf; [|exact Hn|exact Hc].
+    clear Hc. intros fd st0 v st0' [Hname Hk] Hstep. cbv beta in Hstep.
+    destruct (f_kind fd) as [off t dflt dptr tcost dvcost dpcost|gid|] eqn:Ek.
+    + (* slot *)
+      destruct (negb ((f_disc fd =? 65535) || (f_disc fd =? (if 0 <? dcount then get_le d (doff * 2) 2 else 0)))).
+      { apply ret_ok in Hstep. discriminate. }
+      destruct Hk as [Hty Hdp].
+      apply bind_ok in Hstep. destruct Hstep as (u3 & s4 & _ & Hstep).
+      apply bind_ok in Hstep. destruct Hstep as (u4 & s5 & _ & Hstep).
+      apply bind_ok in Hstep. destruct Hstep as (u5 & s6 & _ & Hstep).
+      apply bind_ok in Hstep. destruct Hstep as (v0 & s7 & Hv & Hstep).
+      apply ret_ok in Hstep. inversion Hstep; subst v0. clear Hstep.
+      destruct t as [| |bits|bits|bits| | |ecost e|eid|sid| |]; cbn [ty_ff] in Hty.
+      * apply ret_ok in Hv. subst v. exact I.
+      * apply ret_ok in Hv. subst v. exact I.
+      * apply ret_ok in Hv. subst v. exact I.
+      * apply ret_ok in Hv. subst v. exact I.
+      * contradiction.
+      * (* text *)
+        destruct (is_null (ptr_at ps off)).
+        -- apply bind_ok in Hv. destruct Hv as (u6 & s8 & _ & Hv). apply ret_ok in Hv. subst v.
+           now apply text_bytes_ok.
+        -- apply ret_ok in Hv. subst v. apply text_bytes_ok. now apply ptr_at_ok.
+      * (* data *)
+        destruct (is_null (ptr_at ps off)).
+        -- apply bind_ok in Hv. destruct Hv as (u6 & s8 & _ & Hv). apply ret_ok in Hv. subst v.
+           now apply data_bytes_ok.
+        -- apply ret_ok in Hv. subst v. apply data_bytes_ok. now apply ptr_at_ok.
+      * (* list *)
+        apply bind_ok in Hv. destruct Hv as (u6 & s8 & _ & Hv).
+        apply bind_ok in Hv. destruct Hv as (p' & s9 & Hp & Hv).
+        assert (Hp' : rval_ok p').
+        { destruct (is_null (ptr_at ps off)).
+          - apply bind_ok in Hp. destruct Hp as (u7 & s10 & _ & Hp). apply ret_ok in Hp. now subst p'.
+          - apply ret_ok in Hp. subst p'. now apply ptr_at_ok. }
+        eapply IHl; eassumption.
+      * (* enum *) eapply shown_enum_wf; eassumption.
+      * (* struct *)
+        apply bind_ok in Hv. destruct Hv as (p' & s9 & Hp & Hv).
+        assert (Hp' : rval_ok p').
+        { destruct (is_null (ptr_at ps off)).
+          - apply bind_ok in Hp. destruct Hp as (u7 & s10 & _ & Hp). apply ret_ok in Hp. now subst p'.
+          - apply ret_ok in Hp. subst p'. now apply ptr_at_ok. }
+        destruct (as_struct p') as [d' ps'] eqn:Ea.
+        eapply IHs; [|exact Hv]. eapply as_struct_ok; eassumption.
+      * (* interface *)
+        apply ret_ok in Hv. subst v. destruct (is_null (ptr_at ps off)); [apply ident_null_ok|now left].
+      * (* anypointer *) apply ret_ok in Hv. subst v. now right.
+    + (* group *)
+      destruct (negb ((f_disc fd =? 65535) || (f_disc fd =? (if 0 <? dcount then get_le d (doff * 2) 2 else 0)))).
+      { apply ret_ok in Hstep. discriminate. }
+      apply bind_ok in Hstep. destruct Hstep as (u3 & s4 & _ & Hstep).
+      apply bind_ok in Hstep. destruct Hstep as (v0 & s5 & Hv & Hstep).
+      apply ret_ok in Hstep. inversion Hstep; subst v0.
+      eapply IHs; eassumption.
+    + apply ret_ok in Hstep. discriminate.
+  - (* marshalList *)
+    intros e l st t st' Hty Hl H. step_sh_in H.
+    destruct e as [| |bits|bits|bits| | |ecost ee|eid|sid| |]; cbn [ty_ff] in Hty.
+    + apply ret_ok in H. subst t. cbn [wf_tval]. apply wf_tvals_of.
+      clear. induction (list_len l); simpl; constructor; auto. exact I.
+    + apply bind_ok in H. destruct H as (xs & s1 & _ & H). apply ret_ok in H. subst t.
+      cbn [wf_tval]. apply wf_tvals_of. eapply Forall_map_wf; [|apply Forall_True]. intros; exact I.
+    + apply bind_ok in H. destruct H as (xs & s1 & _ & H). apply ret_ok in H. subst t.
+      cbn [wf_tval]. apply wf_tvals_of. eapply Forall_map_wf; [|apply Forall_True]. intros; exact I.
+    + apply bind_ok in H. destruct H as (xs & s1 & _ & H). apply ret_ok in H. subst t.
+      cbn [wf_tval]. apply wf_tvals_of. eapply Forall_map_wf; [|apply Forall_True]. intros; exact I.
+    + contradiction.
+    + (* text *)
+      apply bind_ok in H. destruct H as (pl & s1 & Hpl & H). apply ret_ok in H. subst t.
+      apply lift_ok in Hpl. cbn [wf_tval]. apply wf_tvals_of.
+      eapply Forall_map_wf; [|eapply ptr_elems_ok; eassumption]. intros x Hx. now apply text_bytes_ok.
+    + (* data *)
+      apply bind_ok in H. destruct H as (pl & s1 & Hpl & H). apply ret_ok in H. subst t.
+      apply lift_ok in Hpl. cbn [wf_tval]. apply wf_tvals_of.
+      eapply Forall_map_wf; [|eapply ptr_elems_ok; eassumption]. intros x Hx. now apply data_bytes_ok.
+    + (* list of lists *)
+      apply bind_ok in H. destruct H as (u1 & s1 & _ & H).
+      apply bind_ok in H. destruct H as (pl & s2 & Hpl & H). apply lift_ok in Hpl.
+      apply bind_ok in H. destruct H as (vs & s3 & Hc & H). apply ret_ok in H. subst t.
+      cbn [wf_tval]. eapply (collect_elems_wf _ rval_ok); [|eapply ptr_elems_ok; eassumption|exact Hc].
+      intros x st0 v st0' Hx Hs. eapply IHl; eassumption.
+    + (* enums *)
+      apply bind_ok in H. destruct H as (xs & s1 & _ & H).
+      apply bind_ok in H. destruct H as (vs & s3 & Hc & H). apply ret_ok in H. subst t.
+      cbn [wf_tval]. eapply (collect_elems_wf _ (fun _ => True)); [|apply Forall_True|exact Hc].
+      intros x st0 v st0' _ Hs. eapply shown_enum_wf; eassumption.
+    + (* structs *)
+      apply bind_ok in H. destruct H as (pl & s2 & Hpl & H). apply lift_ok in Hpl.
+      apply bind_ok in H. destruct H as (vs & s3 & Hc & H). apply ret_ok in H. subst t.
+      cbn [wf_tval]. eapply (collect_elems_wf _ rval_ok); [|eapply ptr_elems_ok; eassumption|exact Hc].
+      intros x st0 v st0' Hx Hs. cbv beta in Hs. destruct (as_struct x) as [d' ps'] eqn:Ea.
+      eapply IHs; [|exact Hs]. eapply as_struct_ok; eassumption.
+    + (* interfaces *)
+      apply bind_ok in H. destruct H as (pl & s1 & Hpl & H). apply ret_ok in H. subst t.
+      cbn [wf_tval]. apply wf_tvals_of. eapply Forall_map_wf; [|apply Forall_True].
+      intros x _. destruct (is_null x); [apply ident_null_ok|now left].
+    + apply ret_ok in H. subst t. cbn [wf_tval]. apply wf_tvals_of.
+      clear. induction (list_len l); simpl; constructor; auto. now right.
+Qed.
+
+(* ------------------------------------------------------------ parse (render v) = the values shown *)
+
+(* For every float-free schema with identifier names, every stored value (bytes in range),
+   every encoder configuration and cache state: if Encode succeeds, the text it writes is read
+   back by the independent reader as exactly the tree of field values the walk shows
+   (defaults applied, only the active union member, groups as nested structs). *)
+Theorem parse_render : forall ffmt c sc fuel id v out,
+  schema_ok sc -> rval_ok v ->
+  render ffmt c sc fuel id v = Ok out ->
+  exists t, shown ffmt c sc fuel id v = Ok t /\ out = print t /\ wf_tval t /\ parse_text out = Some t.
+Proof.
+  intros ffmt c sc fuel id v out Hsc Hv H. unfold render, encode, shown in *.
+  destruct (as_struct v) as [d ps] eqn:Ea.
+  destruct (shown_struct ffmt c sc fuel id d ps None) as [[t st']|e|] eqn:Es; simpl in H; try discriminate.
+  inversion H; subst out. exists t.
+  assert (Hw : wf_tval t).
+  { destruct (shown_wf ffmt c sc Hsc fuel) as [Hs _]. eapply Hs; [|exact Es]. eapply as_struct_ok; eassumption. }
+  split; [reflexivity|]. split; [reflexivity|]. split; [assumption|now apply parse_print].
+Qed.
+
+(* faithfulness: two values (of any two types of the schema) whose texts coincide show the same field values *)
+Corollary render_faithful : forall ffmt c sc fuel id1 v1 id2 v2 out,
+  schema_ok sc -> rval_ok v1 -> rval_ok v2 ->
+  render ffmt c sc fuel id1 v1 = Ok out -> render ffmt c sc fuel id2 v2 = Ok out ->
+  shown ffmt c sc fuel id1 v1 = shown ffmt c sc fuel id2 v2.
+Proof.
+  intros ffmt c sc fuel id1 v1 id2 v2 out Hsc H1 H2 R1 R2.
+  destruct (parse_render _ _ _ _ _ _ _ Hsc H1 R1) as (t1 & S1 & _ & _ & P1).
+  destruct (parse_render _ _ _ _ _ _ _ Hsc H2 R2) as (t2 & S2 & _ & _ & P2).
+  rewrite S1, S2. rewrite P1 in P2. now inversion P2.
+Qed.
+
+(* non-vacuity: a union with a group, an enum (in and out of range), defaults, text with quotes *)
+Definition ex2_schema : schema :=
+  mkSchema
+    [ (1, NStruct 2 0 56
+            [ mkField [97] 2 65535 (FSlot 1 (TInt 16) 65535 RNull 32 24 0);               (* a :Int16 = -1 *)
+              mkField [116] 2 0 (FSlot 0 TText 0 (RPrim 8 [104; 105; 0]) 32 24 3);       (* t :Text = hi, union member 0 *)
+              mkField [103] 2 1 (FGroup 2);                                                (* g :group, union member 1 *)
+              mkField [101] 2 65535 (FSlot 2 (TEnum 3) 0 RNull 32 24 0);                  (* e :E *)
+              mkField [108] 2 65535 (FSlot 1 (TList 24 (TList 24 (TUint 8))) 0 RNull 32 24 0) ]);
+      (2, NStruct 0 0 56 [ mkField [120] 2 65535 (FSlot 1 TBool 1 RNull 32 24 0) ]);      (* x :Bool = true *)
+      (3, NEnum 16 [([117], 2); ([118], 2)]) ]
+    400.
+Definition ex2_value_t : rval :=   (* member t set to a DQUOTE b BACKSLASH, e = 1, l = [[1,2],[]] *)
+  RStruct [0; 0; 5; 0; 1; 0; 0; 0] [RPrim 8 [97; 34; 98; 92; 0]; RPtrs [RPrim 8 [1; 2]; RNull]].
+Definition ex2_value_g : rval :=   (* member g, e = 7 (no such enumerant) *)
+  RStruct [1; 0; 0; 0; 7; 0; 0; 0] [].
+
+Example ex2_schema_ok : schema_ok ex2_schema.
+Proof.
+  repeat constructor; try discriminate; try reflexivity;
+    try (eexists; eexists; split; reflexivity); try (intros _; repeat constructor; unfold byte_ok; lia).
+Qed.
+
+Example parse_render_example_t :
+  exists out, render no_floats cfg_fixed ex2_schema 9 1 ex2_value_t = Ok out /\
+    parse_text out = Some (TvStruct (FCons [97] (TvInt (-6))
+                            (FCons [116] (TvStr [97; 34; 98; 92])
+                            (FCons [101] (TvIdent [118])
+                            (FCons [108] (TvList (TCons (TvList (TCons (TvInt 1) (TCons (TvInt 2) TNil))) (TCons (TvList TNil) TNil)))
+                             FNil))))).
+Proof. eexists. split; vm_compute; reflexivity. Qed.
+
+Example parse_render_example_g :
+  exists out, render no_floats cfg_fixed ex2_schema 9 1 ex2_value_g = Ok out /\
+    parse_text out = Some (TvStruct (FCons [97] (TvInt (-1))
+                            (FCons [103] (TvStruct (FCons [120] (TvBool true) FNil))
+                            (FCons [101] (TvInt 7)
+                            (FCons [108] (TvList TNil) FNil))))).
+Proof. eexists. split; vm_compute; reflexivity. Qed.
